@@ -3,6 +3,7 @@
 //! orchestrator evaluates against the reference model with `coqc`.
 mod answers;
 mod bytesdiff;
+mod loaddiff;
 mod ledger;
 mod loopdiff;
 mod oncediff;
@@ -32,6 +33,7 @@ fn main() {
         "srcdiff" => srcdiff::run(&a),
         "oncediff" => oncediff::run(&a),
         "bytesdiff" => bytesdiff::run(&a),
+        "loaddiff" => loaddiff::run(&a),
         "answers-child" => std::process::exit(answers::child(&a)),
         other => {
             eprintln!("unknown engine {other}");
